@@ -358,3 +358,46 @@ func verifL_LinWalk(kind int) {
 func verifL_LinWalk_ShardedMap()   { verifL_LinWalk(0) }
 func verifL_LinWalk_SyncMap()      { verifL_LinWalk(1) }
 func verifL_LinWalk_ShardedMapOf() { verifL_LinWalk(2) }
+
+// Two different keys that may share their 64-bit hash (all hashing is an uninterpreted function, both
+// keys are placed in shard 5): an operation on key "a" runs against a Write of key "b". Whatever the
+// schedule and whether or not the hashes collide, the completed Write of "b" must be there at the end
+// and the operation on "a" must never see or remove "b"'s entry.
+func verifL_Collide(kind int) {
+	verifOption("hash-uf")
+	opA := verifChoice("opA", 2) // 0: Read(a), 1: Delete(a)
+	b := verifNewBackend(kind, Config{TimeToLive: UnlimitedTTL, ExpirationJitter: -1})
+	now := verifInt64("now")
+	verifAssume(now >= verifT0 && now <= verifT1)
+	verifClockFn = func() int64 { return now }
+	ka, kb := []byte("a"), []byte("b")
+	verifAssume(verifHash(ka)%shards == 5 && verifHash(kb)%shards == 5)
+	b.put(ka, 1, 0, 0)
+	ctx := context.Background()
+	readKind, readVal := -1, 0
+	verifThread([]string{"Read(a)", "Delete(a)"}[opA], func() {
+		if opA == 0 {
+			v, err := b.read(ctx, ka)
+			k, rv := 0, 0
+			if err == nil {
+				k, rv = 1, v.(int)
+			}
+			verifAtomic(func() { readKind, readVal = k, rv })
+		} else {
+			_ = b.del.Delete(ctx, ka)
+		}
+	})
+	verifThread("Write(b)", func() { _ = b.write(ctx, kb, 20) })
+	verifFinally(func() {
+		verifReach("collide: both operations completed")
+		en, ok := b.get(kb)
+		verifAssert("a completed Write of another key survives an operation on a key with the same hash", ok && en.val.(int) == 20 && en.key == "b")
+		if opA == 0 {
+			verifAssert("Read never returns the value of a different key", readKind != 1 || readVal == 1)
+		}
+	})
+	verifRunThreads()
+}
+
+func verifL_Collide_ShardedMap()   { verifL_Collide(0) }
+func verifL_Collide_ShardedMapOf() { verifL_Collide(2) }
